@@ -210,6 +210,14 @@ fn run_case(rep: &mut Report, r: &mut Rng, c: &Case) {
     inter.dedup();
     rep.class(format!("n={}|id={}|prior={}|inter={}|decode={}|{}", n, idc, pr, inter.join("+"), c.decode as u8, c.kind));
     rep.count("groups");
+    rep.sample(4, || {
+        let mut o = J::obj();
+        o.set("kind", J::s(c.kind));
+        o.set("prior_history", J::s(pr));
+        o.set("lines", J::Arr(log.iter().rev().take(6).rev().map(|(l, _)| J::bytes(&l[..l.len().min(100)])).collect()));
+        o.set("verdict", J::s("every non-final Incomplete with its own fields; final Complete == concatenation; decode == unfragmented twin"));
+        o
+    });
     rep.token(p.token());
 }
 
